@@ -481,7 +481,9 @@ func (m *Machine) indexAddr(fr *frame, in *ssa.IndexAddr, x Value, iv Value) Val
 	case SymPtr:
 		// pointer to array inside a symbolically indexed element
 		if !idx.IsConst() {
-			m.unsupported("nested symbolic index")
+			// nested symbolic index: make the outer index concrete by forking
+			k := m.forkIndex(fr, a.Idx, len(a.Elems))
+			return m.indexAddr(fr, in, Ptr(walkAddr(&a.Elems[k], a.Path)), iv)
 		}
 		probe := walk(a.Elems[0], a.Path)
 		arr, ok := probe.(Array)
